@@ -326,17 +326,21 @@ func checkSplatCloud(c *run.Ctx, res *run.Result, ss []splatref.Splat, ctx strin
 		c.SaveInput(data)
 		var back modeling.Mesh
 		var rerr error
-		if p := run.Try(func() { back, rerr = splat.Read(bytes.NewReader(data)) }); p != nil {
-			res.Violate("panic", site, fmt.Sprintf("cloud of %d splats", n), p.Value+"\n"+p.Stack, nil)
+		rd, kind, release := openKind(c, res, "splat.Read", site, data)
+		p := run.Try(func() { back, rerr = splat.Read(rd) })
+		release()
+		input := fmt.Sprintf("cloud of %d splats, file read through %s", n, kind)
+		if p != nil {
+			res.Violate("panic", site, input, p.Value+"\n"+p.Stack, nil)
 			return
 		}
 		if rerr != nil {
-			res.Violate("splat-read-error", site, fmt.Sprintf("cloud of %d splats", n), fmt.Sprintf("file of %d complete records rejected: %v", len(data)/32, rerr), nil)
+			res.Violate("splat-read-error", site, input, fmt.Sprintf("file of %d complete records read through %s rejected: %v", len(data)/32, kind, rerr), nil)
 			return
 		}
 		got, shape := meshSplats(back, n)
 		if shape != "" {
-			res.Violate("splat-count", site, fmt.Sprintf("cloud of %d splats", n), shape, nil)
+			res.Violate("splat-count", site, input, shape+" (file read through "+kind+")", nil)
 			return
 		}
 		compareAll(site, got)
